@@ -1,7 +1,8 @@
 (* C02 — the heat-bath diagonal update is in balance with the same configuration weight as the
    Metropolis one, for bonds of unequal maximum weight. *)
 From Coq Require Import List QArith ZArith NArith Bool Arith.
-From QmcV Require Import Model.Prog Model.Sse Model.Diagonal Proofs.ProgLemmas Proofs.DiagonalProofs Proofs.SseWeight.
+From QmcV Require Import Model.Prog Model.Sse Model.Diagonal Proofs.ProgLemmas Proofs.DiagonalProofs Proofs.SseWeight
+     Proofs.WorldLine Proofs.Expect Proofs.SweepStationary.
 Import ListNotations.
 Open Scope Q_scope.
 
@@ -48,3 +49,48 @@ Theorem C02_offdiag_untouched : forall H bw L n beta st o,
   is_diag o = false -> hb_slot H bw L n beta st (Some o) = Ret (Some o, apply_op st o).
 Proof. exact hb_offdiag. Qed.
 Print Assumptions C02_offdiag_untouched.
+
+(* ---- kernel identification: the whole heat-bath diagonal update (table = maximum over all
+   sub-states, unequal maxima included), as a program on complete configurations, leaves the SAME
+   SSE weight stationary as the Metropolis update, for every observable f ---- *)
+Theorem C02_heatbath_update_stationary : forall H beta L sts,
+  0 < beta ->
+  forall f : cfg -> Q,
+    Qsum (map (fun x => sse_weight H beta (snd x) * expect (update_cfg (hb_update H (bond_weights H) beta) x) f) (canon H sts L))
+    == Qsum (map (fun x => sse_weight H beta (snd x) * f x) (canon H sts L)).
+Proof. exact heatbath_update_stationary_canon. Qed.
+Print Assumptions C02_heatbath_update_stationary.
+
+Theorem C02_heatbath_update_stationary_pointwise : forall H beta L sts y,
+  0 < beta -> In y (canon H sts L) ->
+  Qsum (map (fun x => sse_weight H beta (snd x)
+                      * mass (cfg_eqb y) (denote (update_cfg (hb_update H (bond_weights H) beta) x))) (canon H sts L))
+  == sse_weight H beta (snd y).
+Proof. exact heatbath_update_stationary_pointwise. Qed.
+Print Assumptions C02_heatbath_update_stationary_pointwise.
+
+(* the heat-bath single-slot kernel is in detailed balance with the SSE weight between any two
+   consistent legal configurations of length L *)
+Theorem C02_slot_kernel_detailed_balance : forall H beta L p x y,
+  0 < beta ->
+  length (snd x) = L -> length (snd y) = L -> good H x = true -> good H y = true ->
+  sse_weight H beta (snd x) * mass (cfg_eqb y) (denote (slot_at (fun n st o => hb_slot H (bond_weights H) L n beta st o) p x))
+  == sse_weight H beta (snd y) * mass (cfg_eqb x) (denote (slot_at (fun n st o => hb_slot H (bond_weights H) L n beta st o) p y)).
+Proof.
+  intros H beta L p x y Hb. exact (slot_at_detailed_balance H beta L _ (hb_slot_good H beta L Hb) p x y Hb).
+Qed.
+Print Assumptions C02_slot_kernel_detailed_balance.
+
+(* every slot program of the heat-bath update is a probability distribution (total mass one) *)
+Theorem C02_heatbath_slot_total : forall H L n beta st o,
+  0 < beta -> total (denote (hb_slot H (bond_weights H) L n beta st o)) == 1.
+Proof. exact hb_slot_total. Qed.
+Print Assumptions C02_heatbath_slot_total.
+
+Example C02_ex_stationary_space :
+  let sp := canon ex_ham (all_substates 2) 2 in
+  forallb (fun y => Qeq_bool
+        (Qsum (map (fun x => sse_weight ex_ham (1 # 2) (snd x)
+                             * mass (cfg_eqb y) (denote (update_cfg (hb_update ex_ham (bond_weights ex_ham) (1 # 2)) x))) sp))
+        (sse_weight ex_ham (1 # 2) (snd y))) sp = true.
+Proof. vm_compute. reflexivity. Qed.
